@@ -336,6 +336,8 @@ PROPS["C11"] = {
     "assumptions": ["the client runner delivers a callback for every accepted request (C10), possibly after the batch function returned",
                     "side-band attribution is asserted only on the path that runs to its normal end (on early returns the stderr reader is not awaited)"],
     "units": [
+        # real in-process controller, server slow or unwilling to stop
+        {"name": "C11InProcess", "pkg": CC, "test": "TestVerifC11InProcess", "kind": "enum", "timeout": 120},
         {"name": "C11Batch", "pkg": CC, "test": "TestVerifC11Batch", "kind": "rapid", "race": {"quick": False, "thorough": True},
          "checks": {"quick": 6000, "thorough": 60000}, "shards": {"quick": 4, "thorough": 16}},
         {"name": "C11NeverAnswers", "pkg": CC, "test": "TestVerifC11NeverAnswers", "kind": "enum", "only_tiers": ["thorough"]},
